@@ -120,6 +120,10 @@ func (c *Copier) Copy(obj Native) (Native, error) {
 // reference allocates an object number in the target file, so map order would
 // make the output depend on the run.
 func (c *Copier) CopyDict(obj Dict) (Dict, error) {
+	if obj == nil {
+		// a nil Dict is the null object (it is written as "null"), as is a nil Array
+		return nil, nil
+	}
 	res := Dict{}
 	for _, key := range obj.SortedKeys() {
 		val := obj[key]
@@ -148,6 +152,9 @@ func (c *Copier) copyStreamDict(src Dict) (Dict, error) {
 	res, err := c.CopyDict(src)
 	if err != nil {
 		return nil, err
+	}
+	if res == nil {
+		res = Dict{}
 	}
 	for _, key := range []Name{"Filter", "DecodeParms"} {
 		val, ok := src[key]
